@@ -97,6 +97,8 @@ func runC10(p *core.Program, r *core.Report) {
 	r.Rule("C10.guarded", "point operations (put/add/get/contains/remove/clear/size/enqueue/dequeue) touch mutable fields only with the mutex held", 120)
 	r.Rule("C10.helper", "helpers that mutate guarded state and take no lock themselves are called only with the lock held", 40)
 	r.Rule("C10.single-region", "a point operation takes the mutex once for its whole duration (no check-then-act across an unlock)", 150)
+	r.Rule("C10.queue-wake", "an enqueue wakes the dequeuers that wait for it: every path that adds an element signals the condition variable, and a waiter re-tests after every wake-up (C11's signal/wait rules on both queues) — a dequeue left asleep beside a queued element has no place in any sequential order", 4)
+	importQueueRulesSel(p, r, "C10.queue-wake", []string{"C11.signal", "C11.wait"}, true)
 	r.Rule("C10.queue-cond", "Cond.Wait is called with the mutex held inside a for-loop that re-tests the condition", 2)
 
 	ts := lockedTypes(p, []string{"util/hmap", "util/list", "util/queue"})
